@@ -649,12 +649,19 @@ ssize_t ZCK_PUBLIC_API zck_write(zckCtx *zck, const char *src, const size_t src_
 }
 
 ssize_t ZCK_PUBLIC_API zck_end_chunk(zckCtx *zck) {
+    return comp_end_chunk(zck, false);
+}
+
+/* End the current chunk.  The minimum chunk size is only a hint for where to
+ * split: when the file is being closed (force) whatever is left has to be
+ * written, however small it is */
+ssize_t comp_end_chunk(zckCtx *zck, bool force) {
     VALIDATE_WRITE_INT(zck);
 
     if(!zck->comp.started && !comp_init(zck))
         return -1;
 
-    if(zck->comp.dc_data_size < zck->chunk_min_size) {
+    if(!force && zck->comp.dc_data_size < zck->chunk_min_size) {
         zck_log(ZCK_LOG_DDEBUG, "Chunk too small, refusing to end chunk");
         return zck->comp.dc_data_size;
     }
